@@ -170,13 +170,13 @@ theorem view_container (rec rec' : List Json → TokCtx → Nat → Bool) (ty : 
   all_goals pre_simp h
   · obtain ⟨⟨a1, a2⟩, ⟨⟨a3, a4⟩, a5⟩, a6⟩ := h
     subst a4 a5
-    exact wfTy_quote _ _ _ _ _ a2 a3 (hrec _ _ a6)
+    exact wfTy_quote _ _ _ _ _ (attrsOkT_B a2) a3 (hrec _ _ a6)
   · obtain ⟨⟨a1, a2⟩, ⟨⟨⟨⟨⟨a3, a4⟩, a5⟩, b1⟩, b2⟩, b3⟩, a6⟩ := h
     subst a4 a5
-    exact wfTy_list _ _ _ _ _ a2 a3 b1 b2 b3 (hrec _ _ a6)
+    exact wfTy_list _ _ _ _ _ (attrsOkT_B a2) a3 b1 b2 b3 (hrec _ _ a6)
   · obtain ⟨⟨a1, a2⟩, ⟨⟨a3, a4⟩, a5⟩, a6⟩ := h
     subst a4 a5
-    exact wfTy_item _ _ _ _ _ _ a2 a1 (by simpa using a3) (hrec _ _ a6)
+    exact wfTy_item _ _ _ _ _ _ (attrsOkT_B a2) a1 (by simpa using a3) (hrec _ _ a6)
 
 /-- text blocks: `text` is replaced by inline children -/
 theorem view_text (rec rec' : List Json → TokCtx → Nat → Bool) (ty : String) (attrsJ rawJ chJ : Option Json)
@@ -189,11 +189,11 @@ theorem view_text (rec rec' : List Json → TokCtx → Nat → Bool) (ty : Strin
   all_goals cases ctx
   all_goals pre_simp h
   · obtain ⟨⟨a1, a2⟩, a3, a4⟩ := h
-    exact ⟨a3, a4, a1, fun cs hcs => wfTy_text _ _ (Or.inl rfl) _ _ _ _ a2 a1 hcs⟩
+    exact ⟨a3, a4, a1, fun cs hcs => wfTy_text _ _ (Or.inl rfl) _ _ _ _ (attrsOkT_B a2) a1 hcs⟩
   · obtain ⟨⟨a1, a2⟩, a3, a4⟩ := h
-    exact ⟨a3, a4, a1, fun cs hcs => wfTy_text _ _ (Or.inr rfl) _ _ _ _ a2 a1 hcs⟩
+    exact ⟨a3, a4, a1, fun cs hcs => wfTy_text _ _ (Or.inr rfl) _ _ _ _ (attrsOkT_B a2) a1 hcs⟩
   · obtain ⟨⟨a1, a2⟩, ⟨a3, a4⟩, a5⟩ := h
-    exact ⟨a3, a4, a1, fun cs hcs => wfTy_heading _ _ _ _ _ a2 a1 a5 hcs⟩
+    exact ⟨a3, a4, a1, fun cs hcs => wfTy_heading _ _ _ _ _ (attrsOkT_B a2) a1 a5 hcs⟩
 
 /-- leaves: unchanged by the second pass -/
 theorem view_leaf (rec rec' : List Json → TokCtx → Nat → Bool) (ty : String) (attrsJ rawJ chJ textJ : Option Json)
@@ -208,18 +208,18 @@ theorem view_leaf (rec rec' : List Json → TokCtx → Nat → Bool) (ty : Strin
     subst a4 a5
     obtain ⟨r, hr⟩ := optStr_inv _ a3
     subst hr
-    exact wfTy_raw _ _ (Or.inl rfl) _ _ _ _ a2 a1
+    exact wfTy_raw _ _ (Or.inl rfl) _ _ _ _ (attrsOkT_B a2) a1
   · obtain ⟨⟨a1, a2⟩, ⟨a3, a4⟩, a5⟩ := h
     subst a4 a5
     obtain ⟨r, hr⟩ := optStr_inv _ a3
     subst hr
-    exact wfTy_raw _ _ (Or.inr rfl) _ _ _ _ a2 a1
+    exact wfTy_raw _ _ (Or.inr rfl) _ _ _ _ (attrsOkT_B a2) a1
   · obtain ⟨⟨a1, a2⟩, ⟨a3, a4⟩, a5⟩ := h
     subst a3 a4 a5
-    exact wfTy_empty _ _ (Or.inl rfl) _ _ _ a2 a1
+    exact wfTy_empty _ _ (Or.inl rfl) _ _ _ (attrsOkT_B a2) a1
   · obtain ⟨⟨a1, a2⟩, ⟨a3, a4⟩, a5⟩ := h
     subst a3 a4 a5
-    exact wfTy_empty _ _ (Or.inr rfl) _ _ _ a2 a1
+    exact wfTy_empty _ _ (Or.inr rfl) _ _ _ (attrsOkT_B a2) a1
 
 /-! ### the second pass -/
 
@@ -338,6 +338,103 @@ theorem iterRender_wf (inl : Str → Except PyErr (List Json)) (K mx : Nat)
               subst e2
               rw [wfSeq_single_view, hty]
               exact view_leaf _ (fun cs c d' => wfSeq (m + K + 1) cs c d' mx) _ _ _ _ _ _ _ _ hch htx ht
+        | _ => simp [preView] at ht
+
+/-! ### the attribute shape through the second pass (for C02) -/
+
+theorem preTy_shape (rec : List Json → TokCtx → Nat → Bool) (ty : String) (attrsJ rawJ chJ textJ : Option Json)
+    (ctx : TokCtx) (d mx : Nat) (h : preTy rec ty attrsJ rawJ chJ textJ ctx d mx = true) :
+    coreTys.contains ty = true ∧ attrsShape ty attrsJ = true := by
+  have h' := h
+  simp only [preTy, preView, String.ofList_toList, Bool.and_eq_true, attrsOkT] at h'
+  refine ⟨?_, h'.1.2.2⟩
+  rcases preTy_types _ _ _ _ _ _ _ _ _ h with e | e | e | e | e | e | e | e | e | e <;> subst e <;> decide
+
+theorem preTy_children (rec : List Json → TokCtx → Nat → Bool) (ty : String) (attrsJ rawJ textJ : Option Json)
+    (cs : List Json) (ctx : TokCtx) (d mx : Nat)
+    (h : preTy rec ty attrsJ rawJ (some (.arr cs)) textJ ctx d mx = true) : ∃ c d', rec cs c d' = true := by
+  rcases preTy_types _ _ _ _ _ _ _ _ _ h with e | e | e | e | e | e | e | e | e | e
+  all_goals subst e
+  all_goals cases ctx
+  all_goals pre_simp h
+  · exact ⟨_, _, h.2.2⟩
+  · exact ⟨_, _, h.2.2⟩
+  · exact ⟨_, _, h.2.2⟩
+
+theorem type_of_get? (t : Json) (s : Str) (h : t.get? "type" = some (.str s)) : t.type = String.ofList s := by
+  simp [Json.type, Json.getStr, h]
+
+theorem iterRender_shp (inl : Str → Except PyErr (List Json)) (K mx : Nat)
+    (hinl : ∀ s out, inl s = .ok out → shpAll (K + 1) out = true) :
+    ∀ (n fuel : Nat) (toks : List Json) (ctx : TokCtx) (d : Nat) (out : List Json),
+      preSeq n toks ctx d mx = true → iterRenderG inl fuel toks = .ok out → shpAll (n + K + 1) out = true := by
+  intro n
+  induction n with
+  | zero => intro fuel toks ctx d out h; simp [preSeq] at h
+  | succ m ih =>
+    intro fuel toks ctx d out h hrun
+    cases fuel with
+    | zero => simp [iterRenderG] at hrun
+    | succ fuel =>
+      rw [iterRenderG_succ] at hrun
+      have e : m + 1 + K + 1 = (m + K + 1) + 1 := by omega
+      rw [e]
+      unfold shpAll
+      rw [List.all_eq_true]
+      refine mapM_ok_forall (stepG inl fuel) (fun t => preSeq (m + 1) [t] ctx d mx = true)
+        (fun t' => shp (m + K + 1 + 1) t' = true) ?_ toks out hrun ((preSeq_iff _ _ _ _ _).1 h)
+      intro t t' ht hstep
+      rw [preSeq_single, preTok] at ht
+      cases hty : t.get? "type" with
+      | none => rw [hty] at ht; simp [preView] at ht
+      | some tyJ =>
+        obtain ⟨kv, hkv⟩ := isObj_of_get? _ _ _ hty
+        rw [hty] at ht
+        cases tyJ with
+        | str tyS =>
+          rw [preView_eq_preTy] at ht
+          obtain ⟨s1, s2⟩ := preTy_shape _ _ _ _ _ _ _ _ _ ht
+          subst hkv
+          unfold stepG at hstep
+          split at hstep
+          · rename_i cs hcs
+            rw [hcs] at ht
+            obtain ⟨c, d', hrec⟩ := preTy_children _ _ _ _ _ _ _ _ _ ht
+            cases hr : iterRenderG inl fuel cs with
+            | error e => rw [hr] at hstep; cases hstep
+            | ok cs' =>
+              rw [hr] at hstep
+              have e2 : (Json.obj kv).set "children" (.arr cs') = t' := by
+                simpa [bind, Except.bind, pure, Except.pure] using hstep
+              subst e2
+              have ihc := ih fuel cs c d' cs' hrec hr
+              rw [shp, type_of_get? _ tyS (by rw [get?_set_ne _ _ "type" _ (by decide)]; exact hty),
+                get?_set_ne _ _ "attrs" _ (by decide), get?_set_self, s1, s2]
+              exact ihc
+          · rename_i hnc
+            split at hstep
+            · rename_i text htext
+              cases hr : inl (Py.stripC " \r\n\t\x0c".toList text) with
+              | error e => rw [hr] at hstep; cases hstep
+              | ok cs =>
+                rw [hr] at hstep
+                have e2 : ((Json.obj kv).erase "text").set "children" (.arr cs) = t' := by
+                  simpa [bind, Except.bind, pure, Except.pure] using hstep
+                subst e2
+                obtain ⟨kv1, hkv1⟩ := erase_obj kv "text"
+                have gch : (((Json.obj kv).erase "text").set "children" (.arr cs)).get? "children" = some (.arr cs) := by
+                  rw [hkv1]; exact get?_set_self _ _ _
+                rw [shp, type_of_get? _ tyS (by
+                    rw [get?_set_ne _ _ "type" _ (by decide), get?_erase_ne _ _ "type" (by decide)]; exact hty),
+                  get?_set_ne _ _ "attrs" _ (by decide), get?_erase_ne _ _ "attrs" (by decide), gch, s1, s2]
+                exact shpAll_mono_le (by omega) _ (hinl _ _ hr)
+            · have e2 : Json.obj kv = t' := by
+                simpa [pure, Except.pure] using hstep
+              subst e2
+              rw [shp, type_of_get? _ tyS hty, s1, s2]
+              split
+              · rename_i cs hcs; exact absurd hcs (hnc cs)
+              · rfl
         | _ => simp [preView] at ht
 
 end Mistune
